@@ -447,6 +447,11 @@ def run(ctx):
             dialect["trailing semicolon"] = True
         elif how == "repeated":
             dialect["repeated keys"] = not dialect["repeated keys"]
+            # an empty item of a comma list has no counterpart under repeated keys (an empty value is a flag there)
+            for r in recs:
+                for kv in r["attrs"]:
+                    if len(kv[1]) > 1:
+                        kv[1] = [v for v in kv[1] if v != ""] or ["v"]
         elif how == "order":
             dialect["order"] = list(reversed(order))
         case = {"kind": "supplied", "D": D, "items": items, "dialect": dialect, "checklines": rng.choice([0, 10]), "variation": how}
